@@ -236,7 +236,8 @@ func runC06(c *run.Ctx) {
 	for zi, zc := range []struct {
 		text string
 		key  string
-	}{{`{ name flag(on: false) count }`, "flag"}, {`{ fail name }`, "fail"}, {`{ self { f: flag(on: false) } name }`, "f"}, {`{ items { id } flag(on: true) fail }`, "fail"}} {
+	}{{`{ name flag(on: false) count }`, "flag"}, {`{ fail name }`, "fail"}, {`{ self { f: flag(on: false) } name }`, "f"}, {`{ items { id } flag(on: true) fail }`, "fail"},
+		{`{ name mustFail { id } }`, "mustFail"}, {`{ mustFails { id } count }`, "mustFails"}, {`{ a: mustFail { id } self { name } mustFails { size } }`, "mustFails"}} {
 		root, _, err := zoo.NewRoot()
 		if err != nil {
 			break
@@ -266,7 +267,11 @@ func runC06(c *run.Ctx) {
 		case nerr != 1:
 			c.Violation("c06-reflected-method", map[string]interface{}{"document": zc.text, "diag": fmt.Sprintf("%d error entries for the failed method field %s, expected 1", nerr, zc.key), "response": fmt.Sprint(res)})
 		case has && val != nil:
-			if c.Open("K-C06-method-value-kept") && val == "" {
+			emptyList := false
+			if l, isL := val.([]interface{}); isL && len(l) == 0 {
+				emptyList = true // a nil slice returned next to the error
+			}
+			if c.Open("K-C06-method-value-kept") && (val == "" || emptyList) {
 				c.Known("K-C06-method-value-kept", map[string]interface{}{"document": zc.text, "value_in_data": val})
 			} else {
 				c.Violation("c06-reflected-method", map[string]interface{}{"document": zc.text, "diag": fmt.Sprintf("failed position %s holds %v instead of null", zc.key, val), "response": fmt.Sprint(res)})
